@@ -429,9 +429,12 @@ class Check:
         self.suppressed = 0
 
     # -- statistics
-    def add_tlc(self, name: str, res: TLCResult) -> None:
-        self.states += res.distinct
-        self.transitions += res.generated
+    def add_tlc(self, name: str, res: TLCResult, model: bool = True) -> None:
+        """model=True: a model-checking run of a specification (counts as states/transitions of the
+        evidence); model=False: a trace-validation run (listed in tlc_runs only)."""
+        if model:
+            self.states += res.distinct
+            self.transitions += res.generated
         self.tlc_runs.append({'run': name, 'distinct_states': res.distinct, 'states_generated': res.generated,
                               'depth': res.depth, 'wall_s': round(res.wall, 2)})
 
